@@ -195,3 +195,82 @@ func runC19PruneRace(r *mon.Run, stream uint64) {
 	r.Eval()
 	r.Distinct(fmt.Sprintf("prunerace/%s/%d/h%d/f%d/%v", regime, stream, h, fork.Height, feasible))
 }
+
+// runC19Backlog: one prune call facing a backlog of more than a thousand
+// unpruned best-chain bodies (a node that switches pruning on late), followed
+// by the usual small steps. After every call exactly the best-chain bodies
+// below the height must be gone.
+func runC19Backlog(r *mon.Run, stream uint64) {
+	rng := r.RNG(stream)
+	regime := regimes[rng.IntN(3)]
+	p := chainlab.RandomParams(regime, rng)
+	env := chainlab.NewEnv(p)
+	t := chainlab.NewTree(env, rng)
+	node, err := chainlab.NewTestNode(env, nil)
+	if err != nil {
+		r.Inconclusive(err.Error())
+		return
+	}
+	cm := node.CM
+	n := 1040 + rng.IntN(300)
+	tip := t.Root
+	var batch []*chainlab.Node
+	for i := 0; i < n; i++ {
+		if i%97 == 3 {
+			tip = t.Extend(tip, chainlab.Profile{MaxTxns: 2})
+		} else {
+			// two days apart (the lab's target interval is five): 1300 blocks
+			// after the 2015 genesis must not reach into the future
+			tip = t.ExtendEmpty(tip, tip.Block.Timestamp.Add(48*time.Hour))
+		}
+		batch = append(batch, tip)
+		if len(batch) == 200 || i == n-1 {
+			if err := cm.AddBlocks(chainlab.Blocks(batch)); err != nil {
+				r.Inconclusive("backlog setup: " + err.Error())
+				return
+			}
+			batch = batch[:0]
+		}
+	}
+	cs := map[string]any{"rng_stream": stream, "params": p, "blocks": n}
+	audit := func(h uint64, what string) bool {
+		for x := tip; x != nil; x = x.Parent {
+			_, has := cm.Block(x.ID)
+			if x.Height < h && has {
+				r.Violation("body-kept-below-prune-height:backlog", fmt.Sprintf("%s: PruneBlocks(%d) on a chain of %d blocks left the body of best-chain block %d stored", what, h, tip.Height, x.Height), cs, nil)
+				return false
+			} else if x.Height >= h && !has {
+				r.Violation("body-missing-above-prune-height:backlog", fmt.Sprintf("%s: after PruneBlocks(%d) the body of best-chain block %d is gone", what, h, x.Height), cs, nil)
+				return false
+			}
+		}
+		return true
+	}
+	h := tip.Height - uint64(rng.IntN(30))
+	if pn := mon.Guard(func() { cm.PruneBlocks(h) }); pn != nil {
+		r.Violation("prune-panic:backlog", fmt.Sprint("PruneBlocks panicked: ", pn), cs, nil)
+		return
+	}
+	if !audit(h, "first prune of the backlog") {
+		return
+	}
+	r.Count("prunes_of_a_backlog_of_more_than_1000_bodies", 1)
+	for step := 0; step < 3; step++ {
+		var ext []*chainlab.Node
+		for i := 0; i < 5+rng.IntN(10); i++ {
+			tip = t.ExtendEmpty(tip, zeroT)
+			ext = append(ext, tip)
+		}
+		if err := cm.AddBlocks(chainlab.Blocks(ext)); err != nil || cm.Tip() != tip.L.State.Index {
+			r.Violation("node-broken-after-backlog-prune", fmt.Sprintf("valid blocks on the tip were not adopted after the prune: %v", err), cs, nil)
+			return
+		}
+		h = tip.Height - uint64(rng.IntN(8))
+		cm.PruneBlocks(h)
+		if !audit(h, "follow-up prune") {
+			return
+		}
+	}
+	r.Eval()
+	r.Distinct(fmt.Sprintf("backlog/%s/%d/%d", regime, stream, n))
+}
